@@ -56,6 +56,9 @@ def cases(tier, seed):
     # time-dependent fields (slow: 0.3 % per step, fast: 8 % per step) and callable currents, stated in each unit system
     for d, drive, u in itertools.product(devs[:1] if quick else devs, ("ramp_slow", "ramp_fast", "callable_current"), ("nm", "mm")):
         out.append(dict(fam="run", dev=d, drive=drive, screening=False, units=u))
+    # ... and together with screening (the two features share set-up code)
+    for d, drive, u in itertools.product(devs[:1] if quick else devs, ("ramp_slow", "callable_current"), ("nm", "mm")):
+        out.append(dict(fam="run", dev=d, drive=drive, screening=True, units=u))
     if quick:
         for u in ("nm", "mm"):
             out.append(dict(fam="run", dev="G1", drive="both", screening=True, units=u))
@@ -117,19 +120,22 @@ def run_run(case):
     dt = 2.0**-6
     nsteps = 8
     out = {}
+    refused = {}
     for tag, units in (("a", "um"), ("b", case["units"])):
         dev, kw, (lu, fu, cu) = _problem(case["dev"], case["drive"], units, case["screening"])
         opts = tdgl.SolverOptions(solve_time=nsteps * dt, dt_init=dt, dt_max=dt, adaptive=False, save_every=1, output_file=f"{tag}.h5",
                                   field_units=fu, current_units=cu, include_screening=case["screening"], screening_tolerance=1e-7,
                                   max_iterations_per_step=5000, progress_interval=10**9)
+        refused[tag] = None
         try:
             sol = tdgl.solve(dev, opts, **kw)
         except RuntimeError as exc:
             if "converge" not in str(exc):
                 raise
-            res.count("pair_refused")
-            res.outcome = "refused"
-            return res
+            refused[tag] = str(exc)[:120]
+            frames, _ = drivers.read_frames(f"{tag}.h5")
+            out[tag] = (dev, frames, None, (lu, fu, cu))
+            continue
         frames, _ = drivers.read_frames(f"{tag}.h5")
         # physical current density in A/m at every recorded step, through the public Solution API
         K = []
@@ -137,6 +143,16 @@ def run_run(case):
             sol.solve_step = i
             K.append(sol.current_density.to("A / m").magnitude)
         out[tag] = (dev, frames, K, (lu, fu, cu))
+    if refused["a"] or refused["b"]:
+        # the documented refusal must not depend on the unit system either: same step in both statements
+        na, nb = len(out["a"][1]), len(out["b"][1])
+        if bool(refused["a"]) != bool(refused["b"]) or na != nb:
+            res.violate("refusal-depends-on-units", drive=case["drive"], screening=case["screening"], units=case["units"],
+                        detail={"case": case, "um": refused["a"], "other": refused["b"], "frames": [na, nb]})
+        res.count("pair_refused")
+        res.nontrivial = True
+        res.outcome = "refused"
+        return res
     deva, fa, Ka, _ = out["a"]
     devb, fb, Kb, (lu, fu, cu) = out["b"]
     worst = compare_frames(fa, fb, deva.mesh.areas)
@@ -226,11 +242,12 @@ def run_flux(case):
         if err > TOLERANCES["flux"]:
             res.violate("triangle-phase-is-not-flux", lu=lu, fu=fu, detail={"mesh": name, "B": B, "rel": err,
                                                                            "ratio": float(np.median(circ / want))})
-    # time-dependent parameter through the documented update method
+    # time-dependent parameter through the documented update method, for every combination of solver features that
+    # share the constructor's set-up code (screening, adaptivity)
     A = tdgl.Parameter(_tramp, time_dependent=True, B=0.7)
-    opts = tdgl.SolverOptions(solve_time=1.0, field_units=fu, progress_interval=10**9)
-    solver = tdgl.TDGLSolver(dev, opts, applied_vector_potential=A)
-    for t in (0.0, 0.5):
+    for scr, t in itertools.product((False, True), (0.0, 0.5)):
+        opts = tdgl.SolverOptions(solve_time=1.0, field_units=fu, progress_interval=10**9, include_screening=scr, adaptive=not scr)
+        solver = tdgl.TDGLSolver(dev, opts, applied_vector_potential=A)
         At = solver.current_A_applied if t == 0.0 else solver.update_applied_vector_potential(t)
         Ad = np.einsum("ij,ij->i", np.asarray(At), em.directions)
         # compare with the same quantity for the constant field of equal strength
